@@ -503,6 +503,28 @@ struct Gen {
 	}
 
 	// rights must follow the *current* authentication of the *requesting* peer: re-authenticate as a user with fewer rights, ask on behalf of nobody
+	// the right to set and the right to call are two rights: a group a user holds only for setting does not let it call a method that names this group, and vice versa
+	void pat_rights_cross() {
+		if (!creds || user_names.empty()) return;
+		std::vector<int> ix; for (size_t i = 0; i < cl.size(); i++) if (cl[i].alive) ix.push_back((int)i);
+		if (ix.size() < 2) return;
+		int oi = ix[r.below(ix.size())], ci = oi; while (ci == oi) ci = ix[r.below(ix.size())];
+		GClient &ow = cl[(size_t)oi], &ca = cl[(size_t)ci];
+		std::string A, grp; bool has_set = false;
+		for (int t = 0; t < 40 && A.empty(); t++) {
+			const std::string &u = user_names[r.below(user_names.size())]; if (u == "locked") continue;
+			auto &sg = user_rights[u]["setGroups"]; auto &cg = user_rights[u]["callGroups"];
+			for (auto &g2 : sg) if (std::find(cg.begin(), cg.end(), g2) == cg.end()) { A = u; grp = g2; has_set = true; break; }
+			if (A.empty()) for (auto &g2 : cg) if (std::find(sg.begin(), sg.end(), g2) == sg.end()) { A = u; grp = g2; has_set = false; break; }
+		}
+		if (A.empty()) return;
+		std::string path = "aclx/" + std::to_string(++idctr);
+		bool state = !has_set;   // the element asks for the right the user does NOT hold with this group
+		{ JV pr = JV::obj(); pr.set("path", JV::str(path)); if (state) pr.set("value", fresh_value()); JV acc = JV::obj(); JV ga = JV::arr(); ga.push(JV::str(grp));
+		  acc.set("fetchGroups", ga); acc.set(state ? "setGroups" : "callGroups", ga); pr.set("access", acc); emit(ow.c, "add", pr); owner_of[path] = ow.c; is_state[path] = state; }
+		{ JV pr = JV::obj(); pr.set("user", JV::str(A)); pr.set("password", JV::str(user_pw[A])); emit(ca.c, "authenticate", pr); }
+		{ JV pr = JV::obj(); pr.set("path", JV::str(path)); if (state) pr.set("value", fresh_value()); emit(ca.c, state ? "set" : "call", pr); }
+	}
 	void pat_rights() {
 		if (!creds || user_names.empty()) return;
 		std::vector<int> ix; for (size_t i = 0; i < cl.size(); i++) if (cl[i].alive) ix.push_back((int)i);
@@ -777,7 +799,7 @@ Plan gen_base(const std::string &profile, uint64_t seed, const JV &opts) {
 		else if ((profile == "base" || profile == "c02b" || profile == "c01" || profile == "c03") && x < 0.29 && x >= 0.275 && i > 0 && g.p.ops.size() < 300) g.pat_burst();
 		else if ((profile == "c14" || profile == "c03") && x < 0.30 && i > 1) { if (r.chance(0.4)) g.pat_retry_after_timeout(); else g.pat_double_expiry(); }
 		else if ((profile == "c03" || profile == "c05" || profile == "c02b") && x < 0.315 && i > 2) g.pat_caller_reset_races_reply();
-		else if (profile == "c08" && x < 0.31 && i > 0) g.pat_rights();
+		else if (profile == "c08" && x < 0.31 && i > 0) { if (r.chance(0.3)) g.pat_rights_cross(); else g.pat_rights(); }
 		else if ((profile == "c11" || profile == "c11x") && x < 0.33 && !faulty_cs.empty()) {
 			// a fault on a member of the faulty set, or an aborted connection attempt
 			std::vector<int> fc(faulty_cs.begin(), faulty_cs.end()); int c = fc[r.below(fc.size())];
@@ -1470,7 +1492,7 @@ Plan gen_c20(const std::string &profile, uint64_t seed, const JV &opts) {
 	h.set("want_filelog", JV::boolean(true));
 	// users of every kind
 	JV users = JV::obj();
-	struct U { std::string name, pw; bool admin, ro, nopw; };
+	struct U { std::string name, pw; bool admin, ro, nopw; std::string hash; };
 	std::vector<U> us;
 	int nu = 2 + (int)r.below(4);
 	// DES crypt(3) only looks at the first eight characters: every password differs from every other one there
@@ -1480,7 +1502,7 @@ Plan gen_c20(const std::string &profile, uint64_t seed, const JV &opts) {
 		u.admin = i == 0 ? r.chance(0.7) : r.chance(0.2); u.ro = i == 1 ? r.chance(0.6) : r.chance(0.15); u.nopw = r.chance(0.08);
 		JV o = JV::obj();
 		if (!u.nopw) o.set("password", JV::str(u.pw));
-		static const char *hs[] = {"des", "des", "md5", "md5", "sha256", "sha512"}; o.set("hash", JV::str(hs[r.below(r.chance(0.8) ? 4 : 6)]));
+		static const char *hs[] = {"des", "des", "md5", "md5", "sha256", "sha512"}; u.hash = hs[r.below(r.chance(0.8) ? 4 : 6)]; o.set("hash", JV::str(u.hash));
 		for (const char *k : {"fetchGroups", "setGroups", "callGroups"}) { JV a = JV::arr(); int n = (int)r.below(3); for (int j = 0; j < n; j++) a.push(JV::str("g" + std::to_string(r.below(4)))); o.set(k, a); }
 		if (u.admin) o.set("admin", JV::boolean(true));
 		if (u.ro) o.set("readonly", JV::boolean(true));
@@ -1516,6 +1538,8 @@ Plan gen_c20(const std::string &profile, uint64_t seed, const JV &opts) {
 			double y = r.unit();
 			std::string target = y < 0.5 ? who[ci] : y < 0.9 ? us[r.below(us.size())].name : "nobody";
 			std::string npw = mkpw(target + std::to_string(++pwctr));
+			// an account whose hash is not a DES hash: the new password shares its first eight characters with the old one (DES would not tell them apart; this method must)
+			for (auto &u : us) if (u.name == target && u.hash != "des" && cur.count(target) && cur[target].size() > 9 && r.chance(0.3)) npw = cur[target].substr(0, 8) + "+" + std::to_string(++pwctr) + "-" + std::to_string(r.below(100000));
 			// where messages may be that long: a passphrase at the limit of what crypt(3) hashes (511 bytes) or beyond it (512 and more)
 			if (g_variant.max_message > 2000 && r.chance(0.3)) { size_t L = r.chance(0.4) ? 511 : 512 + r.below(40); while (npw.size() < L) npw += (char)('a' + r.below(26)); }
 			pr.set("user", JV::str(target)); pr.set("password", JV::str(npw));
